@@ -183,7 +183,10 @@ def gen_py_file(rnd):
     nm = rnd.choice(["fx", "café", "中", "f_1"])
     ind = rnd.choice(["    ", "\t", "  "])
     body = '%s"""%s"""\n%sreturn 1\n' % (ind, doc, ind)
-    txt = "import pytest\n\n@pytest.fixture\ndef %s(%s):\n%s\n" % (nm, rnd.choice(["", "a", "a, b=1", "éé: int", "*args", "**kw", "*args, **kw", "*, k=1"]), body)
+    deco = rnd.choice(["@pytest.fixture", "@pytest.fixture", "@pytest.fixture(scope=\"module\")", "@pytest_asyncio.fixture(loop_scope=\"session\")",
+                       "@pytest_asyncio.fixture(loop_scope='session', scope='module')", "@pytest.fixture(my_scope=\"x\", scope=\"class\")",
+                       "@pytest_asyncio.fixture(scope=\"session\", loop_scope=\"session\")"])
+    txt = "import pytest\n\n" + deco + "\ndef %s(%s):\n%s\n" % (nm, rnd.choice(["", "a", "a, b=1", "éé: int", "*args", "**kw", "*args, **kw", "*, k=1"]), body)
     txt += "def test_x(%s%s):\n%s%s\n" % (nm, rnd.choice(["", ": int", " : 'T'", "　= 3"]), ind, rnd.choice(["pass", "x = %s" % nm, '"""　\n  d\n　　e"""']))
     # fixtures named inside string literals: names that are prefixes / suffixes / infixes of one
     # another, with multi-byte first and last characters, in every literal shape the analyzer reads
@@ -235,7 +238,7 @@ def explore_analysis(r, h1, rnd, n):
             + [{"op": "completion_context", "path": pth, "line": ln, "col": 4} for ln in range(0, nl)]
         steps.append({"op": "analyze", "path": pth, "text": txt})
         steps += tree_ops
-        for marker in ("def test_x(", "@pytest.fixture\ndef "):
+        for marker in ("def test_x(", ")\ndef ", "e\ndef "):          # the test's header, the fixture's header (behind any decorator line)
             k = txt.find(marker)
             if k >= 0:
                 cut = txt[:k + len(marker)] + rnd.choice(["", "(", "*"])
@@ -298,8 +301,8 @@ def explore_lsp(r, rnd, n_docs):
                                 bad.append({"doc": txt, "phase": phase, "request": m, "line": ln, "col": col, "error": "server died: %s" % e,
                                             "stderr": srv.stderr_tail(2000)})
                                 raise
-                            except lsp.LspError as e:
-                                if "timed out" in str(e).lower() or "timeout" in str(e).lower():
+                            except (lsp.LspError, TimeoutError) as e:
+                                if isinstance(e, TimeoutError) or "timed out" in str(e).lower() or "timeout" in str(e).lower():
                                     bad.append({"doc": txt, "phase": phase, "request": m, "line": ln, "col": col, "error": "no response: %s" % e})
                                     raise lsp.ServerDied(str(e))
                             nreq += 1
@@ -312,8 +315,8 @@ def explore_lsp(r, rnd, n_docs):
                             bad.append({"doc": txt, "phase": phase, "request": "document-level", "error": "server died: %s" % e,
                                         "stderr": srv.stderr_tail(2000)})
                             raise
-                        except lsp.LspError as e:
-                            if "timed out" in str(e).lower() or "timeout" in str(e).lower():
+                        except (lsp.LspError, TimeoutError) as e:
+                            if isinstance(e, TimeoutError) or "timed out" in str(e).lower() or "timeout" in str(e).lower():
                                 bad.append({"doc": txt, "phase": phase, "request": "document-level", "error": "no response: %s" % e})
                                 raise lsp.ServerDied(str(e))
                         nreq += 1
